@@ -99,7 +99,7 @@ pub fn run(n_programs: usize, len: usize, seed: u64, forms_path: &str, out: &str
         case.pre.rip = start;
         case.pre.regs[6] = STK + 0x800;
         case.bytes = bytes.clone();
-        // which registers are written explicitly (RSP always: the programs use the stack)
+        // which registers are written explicitly
         let mut wr = [false; 16];
         let mut wx = [false; 16];
         if g.rng.gen_bool(0.5) {
@@ -120,11 +120,11 @@ pub fn run(n_programs: usize, len: usize, seed: u64, forms_path: &str, out: &str
                     }
                 }
             }
-            wr[6] = true;
+            // (RSP only if the program reads it: stack instructions do)
         } else {
             let p = [0.1, 0.4, 0.8][g.rng.gen_range(0..3)];
             for i in 0..16 {
-                wr[i] = i == 6 || g.rng.gen_bool(p);
+                wr[i] = if i == 6 { g.rng.gen_bool(0.7) } else { g.rng.gen_bool(p) };
                 wx[i] = g.rng.gen_bool(p);
             }
         }
